@@ -11,6 +11,8 @@ import (
 	"path/filepath"
 	"sort"
 	"strconv"
+	"sync"
+	"time"
 )
 
 // Case is one input together with what the implementation did on it.
@@ -39,6 +41,45 @@ type Set struct {
 	cases     []Case
 	fails     []GoFail
 	Exhaust   []string // names of domains enumerated completely
+}
+
+// ---- watchdog: an implementation call that does not return is a finding, not a stuck check ----
+var (
+	wdMu      sync.Mutex
+	wdWhat    string
+	wdReplay  map[string]interface{}
+	wdStarted time.Time
+)
+
+// Begin marks the start of a call into the implementation; End its return.
+func Begin(what string, replay map[string]interface{}) {
+	wdMu.Lock()
+	wdWhat, wdReplay, wdStarted = what, replay, time.Now()
+	wdMu.Unlock()
+}
+
+func End() {
+	wdMu.Lock()
+	wdWhat = ""
+	wdMu.Unlock()
+}
+
+// Watchdog reports a call that has been running for longer than d as a Go-side failure
+// (key "hang:<what>"), writes the cases collected so far and ends the process.
+func (s *Set) Watchdog(d time.Duration) {
+	go func() {
+		for {
+			time.Sleep(100 * time.Millisecond)
+			wdMu.Lock()
+			what, rp, st := wdWhat, wdReplay, wdStarted
+			wdMu.Unlock()
+			if what != "" && time.Since(st) > d {
+				s.Fail(GoFail{Key: "hang:" + what, What: fmt.Sprintf("%s did not return within %v", what, d), Replay: rp})
+				_ = s.Finish()
+				os.Exit(0)
+			}
+		}
+	}()
 }
 
 func New(id, dir, module, rule string) *Set {
